@@ -460,7 +460,10 @@ func main() {
 		select {
 		case <-done:
 		case <-time.After(120 * time.Second):
-			r.Violate("", "clients did not finish within 120 s (deadlock?)", rep.J{"family": family, "state": kind, "plans": plans, "recorded": hist})
+			mu.Lock()
+			recorded := append([]rec{}, hist...)
+			mu.Unlock()
+			r.Violate("", "clients did not finish within 120 s (deadlock?)", rep.J{"family": family, "state": kind, "plans": plans, "recorded": recorded})
 			r.Write()
 			os.Exit(0)
 		}
